@@ -3,6 +3,7 @@
 package mem
 
 import (
+	"errors"
 	"context"
 	"net"
 	"sync"
@@ -34,6 +35,10 @@ type UDPSession struct {
 	sent     []Sent
 	MaxSize  uint32
 	WriteErr error // returned by WriteMessage when set
+	// FailWrites > 0: the next FailWrites calls of WriteMessage fail with FailErr (a transport that refuses a datagram, e.g.
+	// ECONNREFUSED on a connected socket after an ICMP port-unreachable) while the connection stays usable
+	FailWrites int
+	FailErr    error
 	OnWrite  func(data []byte)
 	// RunExitDelay > 0 switches to the structure of the real sessions: Close() only cancels the context; the done signal
 	// is completed and the on-close callbacks run when Run returns, which happens RunExitDelay after the context ended
@@ -80,6 +85,17 @@ func (s *UDPSession) WriteMessage(req *pool.Message) error {
 	if s.WriteErr != nil {
 		return s.WriteErr
 	}
+	s.mu.Lock()
+	if s.FailWrites > 0 {
+		s.FailWrites--
+		e := s.FailErr
+		s.mu.Unlock()
+		if e == nil {
+			e = errors.New("write: connection refused")
+		}
+		return e
+	}
+	s.mu.Unlock()
 	data, err := req.MarshalWithEncoder(coder.DefaultCoder)
 	if err != nil {
 		return err
@@ -94,6 +110,9 @@ func (s *UDPSession) WriteMessage(req *pool.Message) error {
 	}
 	return nil
 }
+
+// FailNext makes the next n writes fail.
+func (s *UDPSession) FailNext(n int) { s.mu.Lock(); s.FailWrites = n; s.mu.Unlock() }
 
 func (s *UDPSession) WriteMulticastMessage(req *pool.Message, _ *net.UDPAddr, _ ...coapNet.MulticastOption) error {
 	return s.WriteMessage(req)
